@@ -62,6 +62,28 @@ pub fn observe_call(u: &Unimock, m: M, x: u8) -> Step {
     }
 }
 
+/// Like `observe_call`, but the call is made on a scoped thread spawned for it and its panic
+/// propagates to that thread's boundary (observed through `join`).
+pub fn observe_call_on_thread(u: &Unimock, m: M, x: u8) -> Step {
+    let sink = std::sync::Arc::new(std::sync::Mutex::new(Vec::new()));
+    let arg = user_panic_arg();
+    let res = std::thread::scope(|s| {
+        let sink = sink.clone();
+        s.spawn(move || {
+            set_log_sink(Some(sink));
+            set_user_panic_arg(arg);
+            call(u, m, x)
+        })
+        .join()
+    });
+    let obs = match res {
+        Ok(v) => Obs::Value(v),
+        Err(p) => Obs::Panic(payload_to_string(p)),
+    };
+    let log = std::mem::take(&mut *sink.lock().unwrap());
+    Step { obs, log }
+}
+
 /// How a pattern of the real mock is named in messages (from the H3 snapshot).
 pub fn pattern_name(snap: &Snapshot, pat: PatId) -> Option<String> {
     snap.method(pat.0.path())
@@ -152,6 +174,17 @@ pub fn check_step(pred: &Pred, m: M, x: u8, step: &Step, snap: &Snapshot) -> Res
             }
             if !step.log.is_empty() {
                 return Err(format!("expected no user code to run, log {:?}", step.log));
+            }
+        }
+        Pred::UserPanic(text, log) => {
+            let Obs::Panic(msg) = &step.obs else {
+                return Err(format!("expected the user panic {text:?}, observed {:?}", step.obs));
+            };
+            if msg != text {
+                return Err(format!("expected the user panic {text:?} unchanged, observed {msg:?}"));
+            }
+            if &step.log != log {
+                return Err(format!("expected user code to have run as {log:?}, log {:?}", step.log));
             }
         }
         Pred::Unspecified(_) => {}
